@@ -184,7 +184,7 @@ def gen_watchers(rng, n, profile):
     ws = []
     for i in range(n):
         w = {"name": "w%d" % (i + 1), "np": rng.choice([0, 1, 1, 2, 2, 3]),
-             "G": rng.choice(profile.get("Gs", [0.0, 0.1, 0.2, 0.3, 0.5])), "W": rng.choice([0.0, 0.0, 0.1, 0.2]),
+             "G": rng.choice(profile.get("Gs", [0.0, 0.1, 0.2, 0.3, 0.5])), "W": rng.choice(profile.get("Ws", [0.0, 0.0, 0.1, 0.2])),
              "singleton": False, "respawn": True, "priority": rng.choice([0, 0, 1, 2])}
         if profile.get("singleton") and rng.random() < 0.3:
             w["singleton"] = True
@@ -206,6 +206,8 @@ def gen_watchers(rng, n, profile):
             for h in rng.sample(sorted(set(names)), rng.choice([0, 1, 1, 2])) + (
                     ["before_signal"] if "before_signal" in names and rng.random() < profile.get("sighook", 0.0) else []):
                 hooks[h] = (rng.choice(["true", "false", "raise"]), rng.random() < 0.5)
+                if rng.random() < profile.get("slowhooks", 0.0):
+                    hooks[h] = ("true+slow", False)
             if hooks:
                 w["hooks"] = hooks
         ws.append(w)
